@@ -384,7 +384,16 @@ def step (d : DS) (toks : List String) : DS × String :=
          let fixset := match cands.find? (fun (a, b, c, _) => tryset a b c) with
            | some (_, _, _, nm) => nm
            | none => "-"
-         (d, s!"got={runs got} spec={runs spec} cls={clsS} fix2={b01 f2} fix3={b01 f3} fix23={b01 f23} fix41={b01 f41} fixset={fixset} abs={absS} absgot={runs absGot}")
+         -- a hidden event whose timestamp lies outside the hull the index holds for its chunk (or whose chunk the index does not
+         -- know): a HULL defect. Every way a hull comes about is exact or over-wide on any data (onWrite merges batch hulls, rebuild
+         -- and — since 3cb83a3 — lightFill scan every record), so this is never the open finding #4 (sparse skip / merge inside a sound hull)
+         let hidden := spec.filter (fun i => !got.contains i)
+         let hullBad := hidden.any (fun i =>
+           let k := ((List.range lay.1.size).find? (fun k => lay.2.2[k]! ≤ i && i < lay.2.2[k]! + (lay.1[k]!).cnt)).getD 0
+           match CIndex.findChk d.rcidx ((lay.1[k]!).id / 10) with
+           | some ch => decide (d.allTs[i]! < ch.minTs) || decide (d.allTs[i]! > ch.maxTs)
+           | none => true)
+         (d, s!"got={runs got} spec={runs spec} cls={clsS} fix2={b01 f2} fix3={b01 f3} fix23={b01 f23} fix41={b01 f41} fixset={fixset} abs={absS} absgot={runs absGot} hullbad={b01 hullBad}")
      | _, _, _ => (d, "bad-op"))
   | ["rw.rebuildcounts", spec] =>
     -- rebuilds that saw only the first `count` records of each chunk (records written but not yet confirmed are invisible
